@@ -36,6 +36,34 @@ def gen_disc(prog):
     lem = '// @@FN vx_disc_shape\nproof fn vx_disc_shape()\n    ensures\n        %s,\n{ }\n// @@END vx_disc_shape' % ',\n        '.join(eqs)
     return '\n'.join(pre), plan, {}, lem
 
+def kani_disc(prog, restricted_vis=False):
+    """Twin on the real derive: for every variant (symbolic payload) the three conversions give the variant whose integer value is the
+    declared enum's discriminant (rustc's `as` on a field-less shadow)."""
+    from .spec_print import any_value
+    E = prog.name
+    D = disc_name(prog)
+    R = disc_repr(prog)
+    inst = vspec.rust_inst(prog)
+    sh = prog.shadow_enum('Shadow').replace('pub enum', '#[allow(dead_code)] enum')
+    out, hs = [], []
+    for v in prog.variants:
+        val = any_value(prog, v)
+        if val is None:
+            continue
+        third = '' if restricted_vis else 'let c: %s = strum::IntoDiscriminant::discriminant(&v); assert!(c as %s == Shadow::%s as %s);' % (D, R, v.ident, R)
+        out.append('''    #[kani::proof]
+    fn disc_%s() {
+        let v: En = %s;
+        let a: %s = (&v).into();
+        assert!(a as %s == Shadow::%s as %s);
+        %s
+        let b: %s = v.into();
+        assert!(b as %s == Shadow::%s as %s);
+    }''' % (v.ident, val, D, R, v.ident, R, third, D, R, v.ident, R))
+        hs.append(('disc_' + v.ident, 'discriminant'))
+    text = '\n#[cfg(kani)]\nmod vx_proofs {\n    use super::*;\n    type En = %s%s;\n    %s\n%s\n}\n' % (E, inst, sh, '\n'.join(out))
+    return text, hs
+
 # ---------------------------------------------------------------------------------------
 # C13 EnumIs / EnumTryAs
 
